@@ -252,7 +252,7 @@ def oracle(ops, outs):
                 want = ch[p["gen"]].seal(p["pn"], p["hdr"], p["pay"])
                 if want != p["ct"]:
                     side = "client" if p["who"] == "c" else "server"
-                    fails.append((p["idx"], f"keychain:seal-differs-from-rfc9001:{lab}:{side}:{bucket(p['gen'])}",
+                    fails.append((p["idx"], f"keychain:seal-differs-from-rfc9001:{lab}",
                                   f"{lab}: {side} generation {p['gen']} sealed pn {p['pn']} to {p['ct'].hex()}, RFC 9001 §5.1/§6.1 keys from the "
                                   f"TLS traffic secret give {want.hex()}"))
             if pid == A5[0] and p["ct"] is not None and p["ct"].hex() != A5[4]:
@@ -265,7 +265,7 @@ def oracle(ops, outs):
                     continue
                 if p["ct"] in seen:
                     side = "client" if who == "c" else "server"
-                    fails.append((p["idx"], f"keychain:same-ciphertext-across-generations:{lab}:{side}",
+                    fails.append((p["idx"], f"keychain:same-ciphertext-across-generations:{lab}",
                                   f"{lab}: {side} generations {seen[p['ct']]} and {p['gen']} seal the same packet to the same bytes: "
                                   f"derive_next_key did not change the key"))
                 else:
@@ -278,15 +278,15 @@ def oracle(ops, outs):
             d = "c2s" if p["who"] == "c" else "s2c"
             if p["who"] == opener:
                 if opened:
-                    fails.append((idx, f"keychain:own-packet-opened:{lab}:{d}", f"{lab}: {opener} opened its own generation {p['gen']} packet with its generation {j} opener"))
+                    fails.append((idx, f"keychain:own-packet-opened:{lab}", f"{lab}: {opener} opened its own generation {p['gen']} packet with its generation {j} opener"))
             elif p["gen"] == j:
                 if not opened:
-                    fails.append((idx, f"keychain:genuine-rejected:{lab}:{d}:{bucket(j)}",
+                    fails.append((idx, f"keychain:genuine-rejected:{lab}",
                                   f"{lab}: generation {j} packet of {p['who']} does not open under the peer's generation {j} key: the two chains diverge"))
                 elif unhx(payload) != p["pay"]:
-                    fails.append((idx, f"keychain:payload-corrupted:{lab}:{d}", f"{lab}: generation {j} packet opened to other bytes"))
+                    fails.append((idx, f"keychain:payload-corrupted:{lab}", f"{lab}: generation {j} packet opened to other bytes"))
             elif opened:
-                fails.append((idx, f"keychain:wrong-generation-opened:{lab}:{d}",
+                fails.append((idx, f"keychain:wrong-generation-opened:{lab}",
                               f"{lab}: generation {p['gen']} packet of {p['who']} opens under the peer's generation {j} key: generations share a key"))
         # (e) tampering
         for (idx, opener, g, pid, pn, hdr, flip, opened) in seg.openx:
@@ -295,7 +295,7 @@ def oracle(ops, outs):
                 continue
             same = pn == p["pn"] and hdr == p["hdr"] and flip == "-" and g == p["gen"]
             if same and not opened:
-                fails.append((idx, f"keychain:genuine-rejected:{lab}:{'c2s' if p['who'] == 'c' else 's2c'}:{bucket(g)}", f"{lab}: untouched packet rejected"))
+                fails.append((idx, f"keychain:genuine-rejected:{lab}", f"{lab}: untouched packet rejected"))
             if not same and opened:
                 kind = "pn" if pn != p["pn"] else "header" if hdr != p["hdr"] else "byte" if flip != "-" else "generation"
                 fails.append((idx, f"keychain:tampered-opened:{lab}:{kind}", f"{lab}: packet with changed {kind} opened"))
